@@ -365,7 +365,7 @@ def rule_root_loop(ctx: Ctx, rule: str, which: set[str] | None = None) -> None:
     site = repo.loc(WP, fi.node)
     rows, C = root_rows(repo)
     one = repo.const(WP, '_ONE_OR_MORE')
-    bad_s, bad_e, bad_u = [], [], []
+    bad_s, bad_e, bad_u, bad_w = [], [], [], []
     n_s = n_e = 0
 
     def seq(p: Path) -> list[str]:
@@ -377,8 +377,8 @@ def rule_root_loop(ctx: Ctx, rule: str, which: set[str] | None = None) -> None:
                     out.append('append(' + ', '.join(_tag(a) for a in e[2]) + ')')
                 elif nm.startswith('WcParse.'):
                     out.append(nm[len('WcParse.'):] + '(' + ', '.join(_tag(a) for a in e[2]) + ')')
-            elif e[0] == 'store' and e[1] == 'self.matchbase':
-                out.append(f'matchbase={e[2]!r}')
+            elif e[0] == 'store' and e[1].startswith('self.'):
+                out.append(f'{e[1][5:]}={e[2]!r}' if isinstance(e[2], (bool, int, str, type(None))) else f'{e[1][5:]}={_tag(e[2])}')
         return out
     for p in rows:
         focus(p)
@@ -408,6 +408,10 @@ def rule_root_loop(ctx: Ctx, rule: str, which: set[str] | None = None) -> None:
             want = ['_references(i)'] + (['clean_up_inverse(current)', 'consume_path_sep(i)', 'matchbase=False'] if ds else []) + [f'append({val})', 'update_dir_state()']
             if ds is None or s_ != want:
                 bad_e.append(f'dir_start={ds}: {s_}')
+        if ch not in ('/', '\\'):
+            w = [x for x in s_ if '=' in x.split('(')[0]]
+            if w:
+                bad_w.append(f'{ch!r}: {w}')
         if not p.raised and not any(e[0] == 'except' and e[3] == 'DotException' for e in p.events):
             if not s_ or s_[-1] != 'update_dir_state()':
                 bad_u.append(f'{ch!r}: ends with {s_[-1:] }')
@@ -421,6 +425,8 @@ def rule_root_loop(ctx: Ctx, rule: str, which: set[str] | None = None) -> None:
          f'{n_s} rows agree' if not bad_s else bad_s[0][:220], "globmatch('a//b', 'a//b') / globmatch('a/.b', 'a/*') / MATCHBASE 'a/b' on 'x/a/b'")
     emit('escape-token', not bad_e, '_references(i); if it started a directory: clean_up_inverse, consume_path_sep, matchbase=False; then append(value)',
          f'{n_e} rows agree' if not bad_e else bad_e[0][:220], r"FORCEWIN: globmatch('a\\b', '!(a)\\\\b', EXTGLOB) must be False -- the group is closed before the separator is emitted")
+    emit('token-stores', not bad_w, 'no token other than a separator writes a parser attribute directly (matchbase is cleared by separators only; extmatchbase by no token)',
+         'as expected' if not bad_w else bad_w[0][:200], "Path('x/b/c/a').match('c\\/a') must stay True: the implicit leading recursion of pathlib matching survives separators")
     emit('token-epilogue', not bad_u, 'every token ends with update_dir_state()', 'as expected' if not bad_u else bad_u[0][:160],
          "fnmatch('a.b', 'a?b')... the segment-start state must be advanced after every token")
 
